@@ -156,6 +156,36 @@ class int_(int, metaclass=_TypeShimMeta):
         return _real["int"](x, *a)
 
 
+def _container_with_symbolic_parts(x, depth=0):
+    """a BUILT-IN container (tuple/list/dict/set) that holds a symbolic scalar somewhere inside: its str()/repr() would
+    spell out the engine's placeholder names, and whatever the code computes from that text would be meaningless"""
+    if depth > 6:
+        return False
+    t = _real["type"](x)
+    if t in (tuple, list, set, frozenset):
+        return any(is_sym(e) or getattr(_real["type"](e), "_pyvc_proxy", False) or isi(e, (Seq, GenToken, Cases))
+                   or _container_with_symbolic_parts(e, depth + 1) for e in x)
+    if t is dict:
+        return any(is_sym(e) or getattr(_real["type"](e), "_pyvc_proxy", False) or _container_with_symbolic_parts(e, depth + 1)
+                   for kv in x.items() for e in kv)
+    return False
+
+
+def str_(x):
+    """str(x) of the module text (rewritten call sites only; the name `str` stays the real type)"""
+    if _real["type"](x) is str:
+        return x
+    if isi(x, (Seq, GenToken, Cases)) or _container_with_symbolic_parts(x):
+        raise Unsupported("str() of a container with symbolic parts")
+    return _real["str"](x)
+
+
+def repr_(x):
+    if isi(x, (Seq, GenToken, Cases)) or _container_with_symbolic_parts(x):
+        raise Unsupported("repr() of a container with symbolic parts")
+    return _real["repr"](x)
+
+
 _TYPE_SHIMS = {list: list_, tuple: tuple_, set: set_, dict: dict_, int: int_}
 
 
@@ -592,6 +622,7 @@ def make_builtins(extra=None):
         "min": min_, "max": max_, "zip": zip_, "enumerate": enumerate_, "isinstance": isinstance_,
         "issubclass": issubclass_, "type": type_, "hash": hash_, "next": next_, "iter": iter_, "abs": abs_,
         "range": range_, "list": list_, "tuple": tuple_, "set": set_, "dict": dict_, "int": int_,
+        "repr": repr_, "__pyvc_str__": str_,
     })
     # helpers referenced by the comprehension desugaring (pyvc.desugar); private names, so a module that shadows
     # `map`/`list` keeps its own meaning
